@@ -272,15 +272,11 @@ def rule_r3(prog, res):
 
 
 def rule_r4(prog, res):
-    res.rule('R4', 'writers stay in the advertised lexical space (C08-R5)')
     from ..report import Result
-    tmp = Result('C08')
-    tmp.run_rule(c08.rule_r5, prog, tmp)
-    for (r, w, i, v, nt) in tmp.obligations:
-        res.ob('R4', w, i, v, nt)
-    for f in tmp.findings:
-        res.finding('R4', f.key, f.where, f.message)
-    res.errors.extend(tmp.errors)
+    txt = ('writers stay in the advertised lexical space (C08-R5 default '
+           'conversions, C08-R3 duration sign and fraction)')
+    res.share('R4', txt, 'C08', c08.rule_r5, prog, Result)
+    res.share('R4', txt, 'C08', c08.rule_r3, prog, Result)
 
 
 def rule_r5(prog, res):
